@@ -444,6 +444,37 @@ Section Opts2.
       apply Forall_app in Hbs. apply Hbs.
   Qed.
 
+  Lemma safe_frame : safe 0 B any (dec_frame o).
+  Proof.
+    pose proof (B_nonneg o Hv) as HB. fold B in HB. assert (Hd : 0 <= 0) by lia.
+    intros bs Hbs. unfold dec_frame.
+    destruct (zlen bs <=? 8); [cbn; repeat split; auto; lia|].
+    assert (H8 : byte_list (firstn 8 bs)).
+    { unfold byte_list in *. rewrite <- (firstn_skipn 8 bs) in Hbs. apply Forall_app in Hbs. apply Hbs. }
+    pose proof (safe_msg_header (firstn 8 bs) H8) as Hh.
+    destruct (dec_msg_header (firstn 8 bs)) as [[[h r]|e|k] s]; [|exact Hh|exact Hh].
+    destruct Hh as (_ & _ & Hs1 & Hs2).
+    destruct ((0 <? max_msg o) && (max_msg o <? nth 1 h 0)); [split; assumption|].
+    destruct (nth 1 h 0 <=? zlen bs); [|cbn; repeat split; auto; lia].
+    set (n := Z.to_nat (nth 1 h 0)).
+    assert (Hn : byte_list (firstn n bs)).
+    { unfold byte_list in *. rewrite <- (firstn_skipn n bs) in Hbs. apply Forall_app in Hbs. apply Hbs. }
+    assert (Hk : byte_list (skipn n bs)).
+    { unfold byte_list in *. rewrite <- (firstn_skipn n bs) in Hbs. apply Forall_app in Hbs. apply Hbs. }
+    assert (Hsub : safe 0 B any (if nth 0 h 0 =? 1 then dec_hello o else if nth 0 h 0 =? 2 then dec_ack
+                   else if nth 0 h 0 =? 4 then dec_errmsg o
+                   else if nth 0 h 0 =? 3 then (data <- dec_chunk o ;; ret (zlen data :: data)) else fail EInvalid)).
+    { destruct (nth 0 h 0 =? 1); [apply safe_hello|]. destruct (nth 0 h 0 =? 2); [apply safe_ack|].
+      destruct (nth 0 h 0 =? 4); [apply safe_errmsg|]. destruct (nth 0 h 0 =? 3); [|s1].
+      sbind; [apply safe_chunk|]. s1. }
+    specialize (Hsub (firstn n bs) Hn).
+    match goal with |- context [?m (firstn n bs)] => destruct (m (firstn n bs)) as [[[p r2]|e|k] s2] end.
+    - destruct Hsub as (_ & _ & Hs3 & Hs4). cbn [st_max st_depth st_alloc].
+      split; [exact I|]. split; [split; [exact Hk|rewrite skipn_length; lia]|]. lia.
+    - destruct Hsub as (Hs3 & Hs4). cbn [st_max st_depth st_alloc]. lia.
+    - exact Hsub.
+  Qed.
+
   Definition dk_small (dk : Z) : Prop := match decoder_of dk with DTy t => ty_small t | _ => True end.
 
   Lemma safe_decode dk : dk_small dk -> safe (max_depth o) B any (decode dk o).
@@ -451,7 +482,7 @@ Section Opts2.
     intros Hs. pose proof (B_nonneg o Hv) as HB. fold B in HB.
     assert (Hd : 0 <= max_depth o) by apply Hv.
     assert (Hz : Z.of_nat (depth0 o) = max_depth o) by (unfold depth0; lia).
-    unfold decode, dk_small in *. destruct (decoder_of dk) as [t| | | | | |].
+    unfold decode, dk_small in *. destruct (decoder_of dk) as [t| | | | | | |].
     - sbind; [rewrite <- Hz; apply safe_dec_ty, Hs|]. s1.
     - eapply safe_mono; [..|apply safe_msg_header]; lia.
     - eapply safe_mono; [..|apply safe_hello]; lia.
@@ -459,6 +490,7 @@ Section Opts2.
     - eapply safe_mono; [..|apply safe_errmsg]; lia.
     - eapply safe_mono; [..|eapply safe_weaken; [|apply safe_chunk_header]; intros; exact I]; lia.
     - sbind; [eapply safe_mono; [..|apply safe_chunk]; lia|]. s1.
+    - eapply safe_mono; [..|apply safe_frame]; lia.
   Qed.
 End Opts2.
 
